@@ -40,6 +40,11 @@ type SCTP struct {
 	// a non-nil error makes that call fail without sending anything.
 	WriteFault func(call int, stream uint16) error
 	wcalls     int
+	// WriteStall, when set, runs at the start of every SCTPWrite, before anything is taken or
+	// recorded and without any lock held: a transport that stalls in a write.
+	WriteStall func()
+	// CloseHook, when set, runs at the start of every Close, without any lock held.
+	CloseHook func()
 }
 
 // NewSCTP creates an empty backend.
@@ -102,6 +107,9 @@ func (s *SCTP) SCTPRead(b []byte) (int, *sctp.SndRcvInfo, error) {
 }
 
 func (s *SCTP) SCTPWrite(b []byte, info *sctp.SndRcvInfo) (int, error) {
+	if s.WriteStall != nil {
+		s.WriteStall()
+	}
 	s.mu.Lock()
 	defer s.mu.Unlock()
 	if s.closed {
@@ -128,6 +136,9 @@ func (s *SCTP) SCTPWrite(b []byte, info *sctp.SndRcvInfo) (int, error) {
 }
 
 func (s *SCTP) Close() error {
+	if s.CloseHook != nil {
+		s.CloseHook()
+	}
 	s.mu.Lock()
 	s.closed = true
 	s.cond.Broadcast()
